@@ -469,6 +469,132 @@ def scenario_crashes(chk, h, work, rng, fam, budget):
     return tried, offsets_seen, exhaustive_all
 
 
+def crash_peer_case(h, d, n, cache, target, offset, seed):
+    """A synchronises once and is held (outside the critical section, at
+    SYNC_RELEASED); B runs to completion and reports results; then A continues
+    and is killed after `offset` bytes of the job file (or backup) write of its
+    SECOND synchronisation. After the crash at most A's in-flight jobs may be
+    lost: B's reported results must survive in the job file or the backup."""
+    os.makedirs(d)
+    initial = [{"id": i, "status": "AVAILABLE"} for i in range(1, n + 1)]
+    jf = os.path.join(d, "jobs.xml")
+    write_jobs(jf, initial)
+    env = vf.lib_env("asan")
+    led = os.path.join(d, "ledger")
+    pd = os.path.join(d, "pause")
+    os.makedirs(pd)
+    a = subprocess.Popen(worker_cmd(h, jf, led, 1, cache, -1, "", seed, extra=[
+        "--pause-kind", str(KIND["SYNC_RELEASED"]), "--pause-occ", "1", "--pause-dir", pd,
+        "--crash-target", target, "--crash-sync", "2", "--crash-at", str(offset)]),
+        env=env, stdout=subprocess.PIPE, stderr=subprocess.PIPE, cwd=d)
+    t0 = time.time()
+    while time.time() - t0 < 20 and a.poll() is None and not os.path.exists(os.path.join(pd, "paused")):
+        time.sleep(0.005)
+    res = {"initial": initial, "paused": os.path.exists(os.path.join(pd, "paused"))}
+    b = subprocess.run(worker_cmd(h, jf, led, 1, 2, max(1, n // 2), "", seed + 7), env=env, capture_output=True, cwd=d, timeout=120)
+    res["rc_b"] = b.returncode
+    led_before = read_ledger(led)
+    open(os.path.join(pd, "go"), "w").close()
+    try:
+        a.communicate(timeout=120)
+    except subprocess.TimeoutExpired:
+        a.kill()
+        res["timeout"] = True
+        return res
+    res["rc_a"] = a.returncode
+    res["crashed"] = a.returncode in (-9, 137)
+    led_all = read_ledger(led)
+    pid_a = a.pid
+    res["ledger_a"] = [e for e in led_all if e["pid"] == pid_a]
+    res["ledger_b"] = [e for e in led_all if e["pid"] != pid_a]
+    jobf = parse_jobs(jf)
+    back = parse_jobs(jf + "~")
+    ids0 = [j["id"] for j in initial]
+    good_job = jobf is not None and [j["id"] for j in jobf] == ids0
+    good_back = back is not None and [j["id"] for j in back] == ids0
+    res.update({"job_file_ok": good_job, "backup_ok": good_back})
+    if not res["crashed"]:
+        res["final"] = jobf
+        res["ledger"] = led_all
+        return res
+    if not (good_job or good_back):
+        return res
+    if not good_job:
+        shutil.copy(jf + "~", jf)
+    rec = parse_jobs(jf)
+    res["recovered_from"] = "job" if good_job else "backup"
+    res["recovered"] = rec
+    # B's reported results must have survived the crash of A
+    lost = []
+    recd = {j["id"]: j for j in rec}
+    for e in res["ledger_b"]:
+        if e["t"] == "D":
+            j = recd[e["id"]]
+            if j["status"] != e["status"] or nonce_of(j["output"]) != e["nonce"]:
+                lost.append(e["id"])
+    res["peer_results_lost"] = lost
+    inflight = set(j["id"] for j in rec if j["status"] == "ASSIGNED")
+    res["inflight"] = sorted(inflight)
+    c = subprocess.run(worker_cmd(h, jf, led, 1, cache, -1, "stat(ASSIGNED)" if inflight else "", seed + 1),
+                       env=env, capture_output=True, cwd=d, timeout=120)
+    res["rc_c"] = c.returncode
+    if c.returncode != 0:
+        res["error"] = c.stderr.decode("utf-8", "replace")[-2000:]
+    res["final"] = parse_jobs(jf)
+    res["ledger"] = read_ledger(led)
+    return res
+
+
+def scenario_crash_peer(chk, h, work, rng, fam, budget):
+    jobs, meta = [], []
+    configs = [(4, 1), (6, 2)] if chk.tier == "quick" else [(3, 1), (4, 1), (6, 2), (8, 3)]
+    for ci, (n, cache) in enumerate(configs):
+        # size of one job-file write is below ~ 260 bytes per job
+        W = 260 * n
+        per = max(2, budget // (2 * len(configs)))
+        for target in ("job", "backup"):
+            offs = list(range(1, W + 1))
+            if len(offs) > per:
+                offs = sorted(rng.sample(offs, per))
+            for o in offs:
+                d = os.path.join(work, "peer_%d_%s_%d" % (ci, target, o))
+                jobs.append(lambda d=d, n=n, cache=cache, target=target, o=o: crash_peer_case(h, d, n, cache, target, o, 1))
+                meta.append((n, cache, target, o))
+    hit = 0
+    for (n, cache, target, o), r in zip(meta, vf.run_parallel(jobs)):
+        wit = {"scenario": "crash-with-peer", "jobs": n, "cache": cache, "crash_target": target,
+               "crash_sync": 2, "crash_after_bytes": o}
+        if r.get("timeout") or not r.get("paused"):
+            chk.inconclusive.append("watchdog: crash-with-peer did not reach its pause point")
+            continue
+        if "error" in r:
+            wit["stderr_tail"] = r["error"]
+            chk.violation(fam + "/" + (vf.sanitizer_key(r["error"]) or "worker-failed-after-recovery"), wit,
+                          "worker failed in crash-with-peer scenario")
+            continue
+        if not r.get("crashed"):
+            judge_history(chk, fam, r["initial"], r.get("final"), r.get("ledger", []), wit)
+            chk.count("crash_peer_offset_not_reached", 1, 0)
+            continue
+        hit += 1
+        if not (r["job_file_ok"] or r["backup_ok"]):
+            chk.violation(fam + "/neither-jobfile-nor-backup-complete", wit,
+                          "after a crash neither the job file nor its backup is a complete parseable job list")
+            continue
+        wit["recovered_from"] = r["recovered_from"]
+        if r["peer_results_lost"]:
+            wit["jobs_lost"] = r["peer_results_lost"]
+            wit["recovered"] = ["%d:%s" % (j["id"], j["status"]) for j in r["recovered"]]
+            chk.violation(fam + "/peer-results-lost-by-crash", wit,
+                          "results reported by another process before the crash are missing from the recovered job list "
+                          "(more than the in-flight jobs of the crashed process is lost)")
+            continue
+        judge_history(chk, fam, r["initial"], r["final"], r["ledger"], wit,
+                      allow_dup=set(e["id"] for e in r["ledger_a"] if e["t"] == "S"))
+        chk.count("crash_peer_%s" % target, 1, 1)
+    return hit
+
+
 def run(chk):
     h = _harness("asan")
     ht = _harness("tsan")
@@ -540,6 +666,9 @@ def run(chk):
     # C: crash points
     tried, crashed, exhaustive = scenario_crashes(chk, h, work, rng, "crash", crash_budget)
     phase("crash")
+    peer_hit = scenario_crash_peer(chk, h, work, rng, "crash_peer", vf.tier_n(chk.tier, 48, 4000))
+    chk.counters["crash_with_peer_points_hit"] = peer_hit
+    phase("crash_peer")
     chk.extra["phase_wall_s"] = phase_t
 
     chk.counters.update({"ledger_events": ledger_events, "pause_points_hit": reached,
